@@ -29,7 +29,7 @@ def build(par, mix, rng):
     n = len(par)
     extra = []
     if mix == "Node":
-        nodes = [F.Node("n%d" % i, val=i, data={"k": [i, "x"]}) for i in range(n)]
+        nodes = [F.Node("n%d" % i, val=i, data={"k": [i, "x"]}, size=1000 + i, depth="d%d" % i) for i in range(n)]  # incl. keys named like read-only properties
     elif mix == "AnyNode":
         nodes = [F.AnyNode(id=i, tag="t%d" % i) for i in range(n)]
     elif mix == "NM":
